@@ -18,7 +18,7 @@ CONSTANTS Vals, MaxStack, MaxOps, OpKinds, Made0,
           Bug      \* "none" | "setattr" | "delattr" | "release" | "push" | "pop" |
                    \* "release_stack" | "proxy_early" | "spawn_fresh" | "release_all" | "falsy_unbound" |
                    \* "iop_rebind" | "mgr_iter" | "cleanup_first" | "mw_forget" | "mw_counter" |
-                   \* "cv_lookup" | "set_skip_equal"
+                   \* "cv_lookup" | "set_skip_equal" | "cvd_default_unbound" | "gc_cleanup"
 
 VARIABLES st,     \* contract state (Locals.tla)
           im,     \* implementation state
@@ -40,6 +40,8 @@ InitImpl == [hd |-> [r \in Refs |-> EmptyD], hl |-> [r \in Refs |-> <<>>],
              cont |-> [b \in Boxes |-> Init0(b)], pmade |-> Made0, pearly |-> [k \in AllKinds |-> NoBox],
              pproxy |-> [k \in AllKinds |-> TRUE],
              cvar |-> [c \in Ctxs |-> NoBox],   \* the plain ContextVar behind LocalProxy(contextvar)
+             dvar |-> [c \in Ctxs |-> [k \in CvdKinds |-> NoBox]],    \* the ContextVars declared with a default
+             dtok |-> [c \in Ctxs |-> [k \in CvdKinds |-> <<>>]],
              infl |-> {},                 \* contexts holding an unclosed ClosingIterator of the middleware
              nfl |-> 0,                   \* (Bug "mw_counter": a global count of requests in flight)
              mgr |-> {"ns", "stack"},     \* LocalManager.locals of the manager in use
@@ -87,6 +89,10 @@ SetList(I, alive, c, l, op) == IF Bug = op THEN SetListInPlace(I, alive, c, l) E
 \* LocalProxy._get_current_object() evaluated in context c
 Lookup(I, c, k) == IF k = TOP THEN TopOf(ListOf(I, c))
                    ELSE IF k = CVK THEN I.cvar[c]
+                   \* var.get(): the value set in this context, else the declared default.  Bug
+                   \* "cvd_default_unbound": the proxy only accepts a value that was set()
+                   ELSE IF k \in CvdKinds THEN (IF I.dvar[c][k] # NoBox THEN I.dvar[c][k]
+                                                ELSE IF Bug = "cvd_default_unbound" THEN NoBox ELSE CvdDefault(k))
                    ELSE IF k = FNK THEN (IF "x" \in Names THEN DictOf(I, c)["x"] ELSE NoBox)
                    ELSE DictOf(I, c)[k]
 Resolve(I, c, k) == IF Bug = "proxy_early" THEN I.pearly[k]
@@ -153,7 +159,15 @@ INext(I, alive, o) ==
     [] o.op = "mw_close" ->
          LET I1 == [I EXCEPT !.infl = @ \ {c}, !.nfl = @ - 1] IN
          IF Bug = "mw_forget" \/ (Bug = "mw_counter" /\ I1.nfl > 0) THEN I1 ELSE ICleanup(I1, alive, c)
+    \* ClosingIterator has no finaliser: dropping it does nothing.  Bug "gc_cleanup": a __del__ that
+    \* runs the callbacks -- in whichever context the garbage collector happens to run
+    [] o.op = "mw_abandon" ->
+         LET I1 == [I EXCEPT !.infl = @ \ {o.child}, !.nfl = @ - 1] IN
+         IF Bug = "gc_cleanup" THEN ICleanup(I1, alive, c) ELSE I1
     [] o.op = "cv_set" -> [I EXCEPT !.cvar[c] = o.b]
+    [] o.op = "cvd_set" -> [I EXCEPT !.dvar[c][o.k] = o.b, !.dtok[c][o.k] = Append(@, I.dvar[c][o.k])]
+    [] o.op = "cvd_reset" -> LET t == I.dtok[c][o.k] IN
+                             [I EXCEPT !.dvar[c][o.k] = t[Len(t)], !.dtok[c][o.k] = SubSeq(t, 1, Len(t) - 1)]
     \* LocalManager(x): None -> [], a Local -> [x], anything else -> list(x).  Bug "mgr_iter" drops
     \* the isinstance test: list(a Local) are the (name, value) items of the constructing context
     [] o.op = "mkmgr" ->
@@ -173,7 +187,7 @@ INext(I, alive, o) ==
          ELSE [I EXCEPT !.cont = ObjNext(I.cont, b, o)]
     [] o.op = "spawn" -> IF Bug = "spawn_fresh" THEN I     \* child starts empty instead of with the snapshot
                          ELSE [I EXCEPT !.cvd[o.child] = I.cvd[c], !.cvl[o.child] = I.cvl[c],
-                                        !.cvar[o.child] = I.cvar[c]]
+                                        !.cvar[o.child] = I.cvar[c], !.dvar[o.child] = I.dvar[c]]
     [] OTHER -> I
 
 \* ---- product with the contract ---------------------------------------------------------------
@@ -186,9 +200,12 @@ AllOps ==
   \* (LocalManager(bare LocalStack) is left out: the type annotation allows it, the code raises
   \*  TypeError; the contract leaves its outcome open, so the refinement says nothing about it)
   \cup {O(c, "cv_set", "", b, 0, "", 0) : c \in Ctxs, b \in Boxes}
+  \cup {O(c, "cvd_set", "", b, 0, k, 0) : c \in Ctxs, b \in Boxes, k \in CvdKinds}
+  \cup {O(c, "cvd_reset", "", 0, 0, k, 0) : c \in Ctxs, k \in CvdKinds}
   \cup {O(c, "mw_enter", nm, b, v, k, 0) : c \in Ctxs, nm \in Names, b \in Boxes, v \in {0, 3}, k \in MwForms}
   \cup {O(c, "mw_enter", "", b, v, k, 0) : c \in Ctxs, b \in MwPush, v \in {0, 3}, k \in MwForms}
   \cup {O(c, "mw_close", "", 0, v, "", 0) : c \in Ctxs, v \in 0..2}
+  \cup {O(c, "mw_abandon", "", 0, 0, "", ch) : c \in Ctxs, ch \in Ctxs}
   \cup {O(c, "mkmgr", "", 0, 0, k, 0) : c \in Ctxs, k \in MgrForms \ {"stack"}}
   \cup {O(c, "mgr_append", "", 0, 0, k, 0) : c \in Ctxs, k \in {"local", "stack"}}
   \cup {O(c, "mw", nm, b, v, k, 0) : c \in Ctxs, nm \in Names, b \in Boxes, v \in MwVariants, k \in MwForms}
@@ -240,6 +257,10 @@ ReturnsAgree    == ~bad
 \* middleware's iterable, release_local, __release_local__, pop to empty) nothing of what it releases
 \* is left in the releasing context -- whatever other contexts have in flight
 ReleaseReleases == ~relbad
+\* "releasing a local affects only the releasing context": whatever the implementation released in a
+\* context the contract does not release in (a sibling's cleanup, an abandoned response collected
+\* there) shows as a difference between that context's view and the contract's
+ReleaseIsLocalInv == ViewEqualsIdeal   \* (the law ReleaseIsLocal of Locals.tla as a state invariant of the product)
 \* sanity of the heap model itself: copy-on-write means a payload object is never shared by two
 \* contexts after one of them wrote -- sharing exists only through spawn (checked as reachability
 \* by the coverage note below, not as a property)
@@ -247,4 +268,5 @@ ReleaseReleases == ~relbad
 NoLimit == 0 - 1
 NoneMade == {}
 EveryKindI == AllKinds
+CvKindsI == CvdKinds \cup {CVK}
 =============================================================================
